@@ -547,6 +547,138 @@ theorem minBinsP_le (sizes : List Rat) (cap : Rat) (hcap : 0 < cap) (hs : ∀ s 
     exact h.load b hb'
 
 
+/-- What the two scans of `place` choose.  First-fit: the first open bin the item fits in; best-fit:
+a bin the item fits in with the least remaining capacity; both report `none` (a new bin is opened)
+only when the item fits no open bin. -/
+theorem scan_spec (size : Rat) (bins : List Rat) :
+    (match firstFit ratOps size bins 0 with
+      | some b => b < bins.length ∧ size ≤ bins.getD b 0 ∧ ∀ j, j < b → ¬ size ≤ bins.getD j 0
+      | none => ∀ j, j < bins.length → ¬ size ≤ bins.getD j 0) ∧
+    (match bestFit ratOps size bins 0 none with
+      | some (b, r) => b < bins.length ∧ r = bins.getD b 0 ∧ size ≤ r ∧
+          ∀ j, j < bins.length → size ≤ bins.getD j 0 → r ≤ bins.getD j 0
+      | none => ∀ j, j < bins.length → ¬ size ≤ bins.getD j 0) := by
+  constructor
+  · have := firstFit_spec size bins 0
+    split
+    · rename_i b hb
+      rw [hb] at this
+      simpa using this
+    · rename_i hb
+      rw [hb] at this
+      exact this
+  · split
+    · rename_i b r hb
+      rcases bestFit_some size bins 0 none b r hb with h | ⟨_, h2, h3, h4⟩
+      · cases h
+      · refine ⟨by simpa using h2, by simpa using h3, h4, fun j hj hfit => ?_⟩
+        obtain ⟨b', r', h1, hle⟩ := (bestFit_min size bins 0 none).1 j hj hfit
+        rw [hb] at h1
+        cases h1
+        exact hle
+    · rename_i hb
+      exact bestFit_none hb
+
+/-- **binpack_two_approx.**  A proved approximation guarantee for all four heuristics (they are
+"any-fit": a bin is opened only when the item fits no open bin, so any two open bins together hold
+more than one capacity): the mirror never uses more than `2·k' - 1` bins, where `k'` is the number of
+bins of *any* valid packing – in particular of an optimal one.  (The sharper `11/9·OPT + 6/9` of the
+decreasing variants is checked per instance, not proved.) -/
+theorem binpack_two_approx (sizes : List Rat) (cap : Rat) (useBest dec : Bool)
+    (hn : sizes ≠ []) (hcap : 0 < cap) (hs : ∀ s ∈ sizes, 0 ≤ s ∧ s ≤ cap) :
+    ∀ r, pack ratOps sizes cap useBest dec = .ok r →
+      ∀ asg' k', ValidPack sizes cap asg' k' → r.k ≤ 2 * k' - 1 := by
+  intro r hr asg' k' hv'
+  obtain ⟨r0, hr0, hv, _, hk1, _⟩ := binpack_valid sizes cap useBest dec hn hcap hs
+  have hk' := (validPack_lower_bound hv').2.2 hn
+  -- identify r
+  obtain ⟨hvv, _⟩ := packRun_valid sizes cap useBest dec hcap hs
+  have hrk : r.k = (packRun ratOps sizes cap useBest dec).bins.length ∧ r.asg = (packRun ratOps sizes cap useBest dec).asg := by
+    have h0 : sizes.length ≠ 0 := fun h => hn (List.eq_nil_of_length_eq_zero h)
+    unfold pack at hr
+    rw [if_neg h0] at hr
+    split at hr
+    · cases hr
+    · split at hr
+      · cases hr
+      · cases hr; exact ⟨rfl, rfl⟩
+  rw [hrk.1]
+  generalize hk : (packRun ratOps sizes cap useBest dec).bins.length = k at *
+  by_cases hk2 : 2 ≤ k
+  · have inv := packRun_inv sizes cap useBest dec hcap hs
+    have hperm := packOrder_perm sizes dec
+    have hs0 : ∀ i, 0 ≤ sizes.getD i 0 := by
+      intro i
+      rcases Nat.lt_or_ge i sizes.length with hi | hi
+      · have : sizes.getD i 0 = sizes[i] := by simp [List.getD_eq_getElem?_getD, hi]
+        rw [this]; exact (hs _ (List.getElem_mem hi)).1
+      · have : sizes.getD i 0 = 0 := by simp [List.getD_eq_getElem?_getD, List.getElem?_eq_none hi]
+        rw [this]; exact Rat.le_refl
+    have pinv : PairInv cap (packRun ratOps sizes cap useBest dec) :=
+      foldl_place_pair sizes cap useBest hs0 _ _ (by intro b b' _ h; simp at h)
+    have hload : ∀ b, b < k → loadOf sizes (packRun ratOps sizes cap useBest dec).asg b =
+        cap - (packRun ratOps sizes cap useBest dec).bins.getD b 0 := by
+      intro b hb
+      have h1 := inv.rem b (by rw [hk]; exact hb)
+      have h3 : loadOf sizes (packRun ratOps sizes cap useBest dec).asg b =
+          pload sizes (packRun ratOps sizes cap useBest dec).asg (packOrder ratOps sizes dec) b := by
+        rw [pload_perm sizes _ hperm b]; rfl
+      rw [h3]; grind
+    have hps := pair_sum cap (fun b => loadOf sizes (packRun ratOps sizes cap useBest dec).asg b) k
+      (fun b _ => sum_map_nonneg _ _ (fun i _ => hs0 i))
+      (fun b hb => by
+        have := pinv b (b + 1) (by omega) (by rw [hk]; exact hb)
+        show cap < loadOf sizes _ b + loadOf sizes _ (b + 1)
+        rw [hload b (by omega), hload (b + 1) hb]; grind)
+    have hlt := hps.2 hk2
+    have hsum : ((List.range k).map fun b => loadOf sizes (packRun ratOps sizes cap useBest dec).asg b).sum = sizes.sum := by
+      have h1 : sizes.sum = ((List.range sizes.length).map fun i => sizes.getD i 0).sum := by
+        rw [← list_eq_map_getD]
+      have h2 := sum_by_bins (fun i => sizes.getD i 0) (fun i => (packRun ratOps sizes cap useBest dec).asg.getD i 0) k
+        (List.range sizes.length) (fun i hi => hvv.lt i (List.mem_range.1 hi))
+      rw [h1, ← h2]; rfl
+    rw [hsum] at hlt
+    have hle := hv'.sum_le
+    have : ((k / 2 : Nat) : Rat) < (k' : Rat) := by
+      apply Rat.not_le.1
+      intro hge
+      have := Rat.mul_le_mul_of_nonneg_right hge (Rat.le_of_lt hcap)
+      grind
+    have := Rat.natCast_lt_natCast.1 this
+    omega
+  · omega
+
+
+/-- the `-decreasing` variants really process the items largest first (and `packOrder` is a
+permutation of the item indices either way) -/
+theorem packOrder_sorted (sizes : List Rat) :
+    (packOrder ratOps sizes true).Pairwise (fun i j => sizes.getD j 0 ≤ sizes.getD i 0) ∧
+    ∀ dec, (packOrder ratOps sizes dec).Perm (List.range sizes.length) := by
+  refine ⟨?_, packOrder_perm sizes⟩
+  unfold packOrder
+  simp only [if_true]
+  have key := List.pairwise_mergeSort
+    (le := fun i j => !(ratOps.lt (sizes.getD i ratOps.zero) (sizes.getD j ratOps.zero)))
+    (by
+      intro a b c h1 h2
+      have h1' : ¬ sizes.getD a 0 < sizes.getD b 0 := by simpa [ratOps] using h1
+      have h2' : ¬ sizes.getD b 0 < sizes.getD c 0 := by simpa [ratOps] using h2
+      have : ¬ sizes.getD a 0 < sizes.getD c 0 := by grind
+      simpa [ratOps] using this)
+    (by
+      intro a b
+      by_cases h : sizes.getD a 0 < sizes.getD b 0
+      · have : ¬ sizes.getD b 0 < sizes.getD a 0 := by grind
+        have e : ratOps.lt (sizes.getD b ratOps.zero) (sizes.getD a ratOps.zero) = false := decide_eq_false this
+        simp [e]
+      · have e : ratOps.lt (sizes.getD a ratOps.zero) (sizes.getD b ratOps.zero) = false := decide_eq_false h
+        simp [e])
+    (List.range sizes.length)
+  refine key.imp ?_
+  intro i j h
+  have : ¬ sizes.getD i 0 < sizes.getD j 0 := by simpa [ratOps] using h
+  grind
+
 /-- The inputs excluded by the hypotheses of `binpack_valid` are exactly those the code rejects or
 answers trivially: no items gives `()`, 0 bins, OPTIMAL; a non-positive capacity, an item larger
 than the capacity or a negative size raises `ValueError`. -/
@@ -604,6 +736,10 @@ example : (knapMirror ratOps exConsts [3, 4] [(1 : Rat) / 2, (13 : Rat) / 10] []
 example : packsInto 10 [8, 4, 4, 1, 0] [] 2 = true ∧ packsInto 10 [8, 4, 4, 1, 0] [] 1 = false := by decide +kernel
 example : minBinsP [4, 8, 1, 4, 0] 10 ≤ 2 :=
   minBinsP_le _ _ (by decide +kernel) (by decide +kernel) ((chkPack_iff _ _ [0, 1, 1, 0, 0] 2).1 (by decide +kernel))
+example (useBest dec : Bool) := binpack_two_approx [4, 8, 1, 4, 0] 10 useBest dec (by simp) (by decide +kernel)
+  (by decide +kernel)
+example : firstFit ratOps 3 [2, 5, 3] 0 = some 1 ∧ (bestFit ratOps 3 [2, 5, 3] 0 none).map (·.1) = some 2 := by
+  decide +kernel
 /-- items of sizes 4,8,1,4,0 into bins of 10 with best-fit: two bins (the 1 goes next to the 8) -/
 example : (pack ratOps [4, 8, 1, 4, 0] 10 true false).toOption.map (fun r => (r.asg, r.k)) =
     some ([0, 1, 1, 0, 0], 2) := by decide +kernel
